@@ -41,3 +41,75 @@ def apply_edit(src, edit):
         except SyntaxError as e:
             raise StaleEdit(f"edited source does not parse: {e}")
     return new
+
+
+def apply_diff(diff_text, get_src):
+    """Apply a unified diff (``git diff`` output) in memory.
+
+    `get_src(rel)` returns the current text of a file (raises on a missing
+    file).  Returns ``{rel: new_text}``.  Hunks are located by their
+    context (nearest match to the recorded position), so a diff survives
+    unrelated line shifts; a hunk whose old text is gone raises StaleEdit.
+    """
+    import re
+    files = {}
+    cur = None
+    hunk = None
+    new_file = False
+    for line in diff_text.splitlines():
+        if line.startswith("diff --git "):
+            m = re.match(r"diff --git a/(\S+) b/(\S+)", line)
+            cur = m.group(2)
+            files[cur] = []
+            hunk = None
+            new_file = False
+        elif cur is None:
+            continue
+        elif line.startswith(("new file mode", "deleted file mode",
+                              "rename from", "Binary files")):
+            raise StaleEdit("diff creates/deletes/renames a file")
+        elif line.startswith(("index ", "--- ", "+++ ", "old mode",
+                              "new mode", "similarity")) and hunk is None:
+            continue
+        elif line.startswith("@@"):
+            m = re.match(r"@@ -(\d+)(?:,\d+)? \+(\d+)(?:,\d+)? @@", line)
+            hunk = {"at": int(m.group(1)), "old": [], "new": []}
+            files[cur].append(hunk)
+        elif hunk is not None:
+            if line.startswith("\\"):
+                continue
+            tag, body = (line[:1], line[1:]) if line else (" ", "")
+            if tag in " -":
+                hunk["old"].append(body)
+            if tag in " +":
+                hunk["new"].append(body)
+    out = {}
+    for rel, hunks in files.items():
+        if not hunks:
+            continue
+        try:
+            src = get_src(rel)
+        except Exception:
+            raise StaleEdit(f"{rel} not present")
+        lines = src.split("\n")
+        offset = 0
+        for h in hunks:
+            old, new = h["old"], h["new"]
+            want = h["at"] - 1 + offset
+            cands = [i for i in range(len(lines) - len(old) + 1)
+                     if lines[i:i + len(old)] == old]
+            if not cands:
+                raise StaleEdit(f"hunk @{h['at']} of {rel} does not apply")
+            i = min(cands, key=lambda c: abs(c - want))
+            lines[i:i + len(old)] = new
+            offset += len(new) - len(old)
+        text = "\n".join(lines)
+        if rel.endswith(".py"):
+            try:
+                ast.parse(text)
+            except SyntaxError as e:
+                raise StaleEdit(f"patched {rel} does not parse: {e}")
+        out[rel] = text
+    if not out:
+        raise StaleEdit("empty diff")
+    return out
